@@ -63,6 +63,39 @@ Theorem rotated_copies_hold_the_rest : forall c t0 fu ops, let s := run c t0 fu 
 Proof. exact olds_l. Qed.
 Print Assumptions rotated_copies_hold_the_rest.
 
+(* ---- fault model: an os.rename of a rotation raises OSError (runf c t0 fu rf ops: the (n+1)-th rename call of
+   the process fails for rf = Some n; the loop breaks at the failure, Log.cycle reopens the main file) ---- *)
+
+(* a failed rename loses no retained record and keeps the retained files (+ buffer) one contiguous stretch of
+   the stream dropped..next-1, in order, each record once -- for every history, failing rename and crash point *)
+Theorem failed_rename_loses_nothing : forall c t0 fu rf ops, let s := runf c t0 fu rf ops in
+  view (files s) ++ ids (bufc s) = seq (dropped s) (next s - dropped s).
+Proof. exact runf_retained_l. Qed.
+Print Assumptions failed_rename_loses_nothing.
+
+Theorem crash_keeps_flushed_with_failed_rename : forall c t0 fu rf ops pre, let s := runf c t0 fu rf ops in
+  is_prefix pre (bufc s) ->
+  exists b, (flushed s <= b <= next s)%nat /\ (dropped s <= b)%nat /\
+            view (survivors s pre) = seq (dropped s) (b - dropped s).
+Proof. exact runf_crash_l. Qed.
+Print Assumptions crash_keeps_flushed_with_failed_rename.
+
+(* the newest file still holds every record since the last COMPLETED rotation *)
+Theorem newest_holds_all_with_failed_rename : forall c t0 fu rf ops, let s := runf c t0 fu rf ops in
+  oids (mainf s) ++ ids (bufc s) = seq (since s) (next s - since s) /\ (since s <= next s)%nat.
+Proof. exact runf_newest_l. Qed.
+Print Assumptions newest_holds_all_with_failed_rename.
+
+(* the rotation loop itself: when a rename fails the chain stops there -- the only records that can be gone are
+   those of the oldest copy (already legitimately overwritten), nothing else is overwritten, and the main file
+   is exactly what it was (so it still starts with its header and keeps growing) *)
+Theorem failed_rename_stops_the_chain : forall a0 rest s s' l',
+  chain a0 rest s = (s', l') -> fault s = false -> fault s' = true ->
+  (view l' = view (a0 :: rest) \/ view l' = view rest) /\ last l' None = last (a0 :: rest) None /\
+  length l' = length (a0 :: rest).
+Proof. exact failed_chain_l. Qed.
+Print Assumptions failed_rename_stops_the_chain.
+
 (* ---- several Logs per Logger (mrun c n ...: n logs, every logger operation visits all of them phase by phase,
    the crash fuel is handed from log to log: a crash point is any primitive operation of any log) ---- *)
 
@@ -114,3 +147,10 @@ Example c23_two_logs :
   map (fun s => (map oids (files s), flushed s)) (lgs m) =
   [([[0]], 1); ([[0; 1; 2; 3; 4; 5; 6; 7; 8]], 9)]%nat.
 Proof. vm_compute. reflexivity. Qed.
+
+(* keep 2: the 1st rename of the 2nd rotation (copy 1 -> copy 2) fails: nothing moves, main keeps growing (records 5..8
+   and 9..12 end up in one file); later rotations work again; one rotation less than c23_nonvacuous, so fewer dropped *)
+Example c23_failed_rename :
+  let s := runf c_ex 0 None (Some 2%nat) ops_ex in
+  map oids (files s) = [[5; 6; 7; 8; 9; 10; 11; 12]; [13; 14; 15; 16]; [17]]%nat /\ dropped s = 5%nat.
+Proof. vm_compute. split; reflexivity. Qed.
